@@ -232,11 +232,25 @@ def server_close_and_eviction(ctx, h):
         base = {d: observe(d) for d in docs}
         if not base[docs[0]]["codeAction"] or base[docs[0]]["codeAction"] == "null" or base[docs[0]]["codeAction"] == "[]":
             raise Inconclusive("no quick fix offered for the directed document: nothing to compare")
-        # the conftest is opened and closed again
+        # the conftest is opened and closed again - the second time through another spelling of its path (a symbolic link)
         before = srv.seq
         srv.did_open(conf, LC_CONF)
         srv.wait_diagnostics(conf, before, timeout=20)
         srv.did_close(conf)
+        alias = ctx.scratch(f"alias{h}")
+        os.symlink(root, os.path.join(alias, "ws_alias"))
+        aconf = os.path.join(alias, "ws_alias", "conftest.py")
+        srv.did_open(aconf, LC_CONF)
+        srv.hover(docs[0], 6, 14)
+        srv.did_close(aconf)
+        adoc = os.path.join(alias, "ws_alias", "pkg", "test_keep2.py")
+        srv.did_close(docs[3])
+        srv.did_open(adoc, files["pkg/test_keep2.py"])
+        srv.hover(docs[0], 6, 14)
+        srv.did_close(adoc)
+        before = srv.seq
+        srv.did_open(docs[3], files["pkg/test_keep2.py"])
+        srv.wait_diagnostics(docs[3], before, timeout=20)
         for d in docs:
             compare("conftest opened and closed", base[d], observe(d))
         # > 2000 other documents are opened while ours stay open
@@ -369,6 +383,12 @@ def concurrent_query_vs_analysis(ctx, vh, count):
                [{"op": "cycles", "db": 0}, {"op": "available", "db": 0, "path": conf}]]
     after = [{"op": "available", "db": 0, "path": test, "observe": True}, {"op": "cycles", "db": 0, "observe": True},
              {"op": "available", "db": 0, "path": conf, "observe": True}]
+    for variant, new_conf in (("edit_records_definitions", CQ_CONF2), ("edit_only_removes_definitions", "# all fixtures removed\nX = 1\n")):
+        threads[0] = [{"op": "analyze", "db": 0, "path": conf, "text": new_conf}]
+        _concurrent_variant(ctx, vh, count, setup, threads, after, variant)
+
+
+def _concurrent_variant(ctx, vh, count, setup, threads, after, variant):
     ref = vh.call(op="sched_scenario", setup=setup, threads=threads, after=after, seed=0, count=1, sequential=[0, 1, 2])
     want = {o["index"] for o in ref["outcomes"]}
     for mode, pct in (("uniform", None), ("pct2", 2)):
@@ -385,9 +405,9 @@ def concurrent_query_vs_analysis(ctx, vh, count):
                 # cycle lists are compared as normalised sets elsewhere; here the texts must match the cold answer
                 wobs = sorted(w.split(";;OBS=", 1)[-1] for w in want)[0]
                 if _norm_obs(obs) != _norm_obs(wobs):
-                    ctx.violation({"kind": "memoised-answer-after-concurrent-analysis-is-stale", "mode": mode},
+                    ctx.violation({"kind": "memoised-answer-after-concurrent-analysis-is-stale", "mode": mode, "variant": variant},
                                   {"seed": o["first_seed"], "count": o["count"], "observed": obs[:600], "cold": wobs[:600]})
-        ctx.nontrivial(("concurrent_query", mode, r["distinct_schedules"] > 10))
+        ctx.nontrivial(("concurrent_query", variant, mode, r["distinct_schedules"] > 10))
 
 
 def _norm_obs(obs):
